@@ -16,6 +16,7 @@ pub enum Effect {
     HeartbeatSeen,                           // last_received refreshed
     ClockRead { t: u64 },                    // Instant::now() returned t
     TimedWait,                               // an awaited operation ran under time::timeout (a bounded wait)
+    TimedWaitUntil { t: u64 },               // an awaited operation ran under time::timeout_at with this absolute deadline
     DefaultSet { raw: Seq<u8> },              // PaddingFactory::update_default(raw) succeeded: raw is the process-wide default from now on
     Submit { frame: FrameS },                // ghost bookkeeping: a frame accepted by write_frame (its wire effect is write_frame's own postcondition)
 }
@@ -188,6 +189,11 @@ pub struct Instant { pub t: u64 }   // milliseconds on the monotonic clock
 impl Instant {
     // the monotonic clock, read: the value is recorded in the effect log
     #[verifier::external_body] pub fn now(fx: &mut Ghost<Seq<Effect>>) -> (r: Instant) ensures final(fx)@ == old(fx)@.push(Effect::ClockRead { t: r.t }) { unimplemented!() }
+    // self + d, None when the sum is beyond the clock's range (std: checked_add never panics)
+    #[verifier::external_body]
+    pub fn checked_add(&self, d: Duration) -> (r: Option<Instant>)
+        ensures self.t + d.ms <= u64::MAX ==> r is Some && r->Some_0.t == self.t + d.ms, self.t + d.ms > u64::MAX ==> r is None
+    { unimplemented!() }
     // now - earlier, zero when `earlier` is in the future
     #[verifier::external_body]
     pub fn saturating_duration_since(&self, earlier: Instant) -> (r: Duration)
@@ -256,6 +262,12 @@ pub mod time {
     #[verifier::external_body]
     pub fn timeout<T>(d: Duration, x: T, fx: &mut Ghost<Seq<Effect>>) -> (r: std::result::Result<T, Elapsed>)
         ensures r is Ok ==> r->Ok_0 == x, final(fx)@ == old(fx)@.push(Effect::TimedWait)
+    { unimplemented!() }
+    // time::timeout_at(deadline, fut): the same with an absolute deadline. In the erased model the operation `x` has already run; in
+    // the real program an Err(Elapsed) means it was CANCELLED at an await point - the caller must not rely on its effects then
+    #[verifier::external_body]
+    pub fn timeout_at<T>(at: Instant, x: T, fx: &mut Ghost<Seq<Effect>>) -> (r: std::result::Result<T, Elapsed>)
+        ensures r is Ok ==> r->Ok_0 == x, final(fx)@ == old(fx)@.push(Effect::TimedWaitUntil { t: at.t })
     { unimplemented!() }
 }
 
